@@ -1015,7 +1015,8 @@ impl IoUring {
         let shift = u32::from(self.flags.contains(IoUringParamFlags::IORING_SETUP_CQE32));
         let tail = self.completion_queue.acquire_ktail();
         let head = self.completion_queue.acquire_khead();
-        if tail <= head {
+        // Free-running counters that wrap around: the ring is empty exactly when they're equal
+        if tail == head {
             return None;
         }
         let ind = ((head & self.completion_queue.ring_mask) << shift) as usize;
